@@ -154,7 +154,7 @@ func (d *driver) next() M {
 		return M{"type": "DeleteOutput", "signer": pick(r, []string{roleOf("challenger"), roleOf("proposer"), "gov", "x"}), "b": b, "idx": int64(r.Intn(5))}
 	case w < 58:
 		return M{"type": "AdvanceBlock", "dt": int64(pick(r, []int{0, 1, 1, 2, 3, 5, 9}))}
-	case w < 80:
+	case w < 78:
 		// a claim: pick an output of the bridge, a leaf of its tree, then perturb sometimes
 		outs := absx.Map(absx.Map(st["outs"])[bk])
 		if len(outs) == 0 || len(d.wds[b]) == 0 {
@@ -202,25 +202,29 @@ func (d *driver) next() M {
 		}
 		_ = id
 		return e
-	case w < 84:
+	case w < 81:
 		return M{"type": "UpdateProposer", "signer": pick(r, []string{roleOf("proposer"), "gov", "x"}), "b": b, "new": pick(r, []string{"p1", "p2", BadNotBech32})}
-	case w < 88:
+	case w < 84:
 		return M{"type": "UpdateChallenger", "signer": pick(r, []string{roleOf("challenger"), "gov", "x"}), "b": b, "new": pick(r, []string{"c1", "c2"})}
-	case w < 91:
+	case w < 87:
 		return M{"type": "UpdateMetadata", "signer": pick(r, []string{roleOf("proposer"), "gov", "x"}), "b": b, "meta": d.meta()}
-	case w < 93:
+	case w < 89:
 		return M{"type": "UpdateBatchInfo", "signer": pick(r, []string{roleOf("proposer"), "gov"}), "b": b, "bsub": pick(r, []string{"s2", ""}), "bchain": pick(r, []string{"CELESTIA", "INITIA", "UNSPECIFIED"})}
-	case w < 94:
+	case w < 90:
 		return M{"type": "UpdateOracleConfig", "signer": pick(r, []string{roleOf("proposer"), "gov", "x"}), "b": b, "flag": r.Intn(2) == 0}
-	case w < 95:
+	case w < 91:
 		return M{"type": "UpdateParams", "signer": pick(r, []string{"gov", "gov", "x"}), "fee": int64(r.Intn(3))}
-	case w < 97:
+	case w < 93:
 		return M{"type": "BankSend", "signer": pick(r, users), "to": pick(r, []string{"esc1", "esc2", "esc3", "u1", "u2"}), "denom": pick(r, []string{"d1", "d2"}), "amt": int64(1 + r.Intn(5))}
-	case w < 98:
+	case w < 94:
 		ch := pick(r, d.ch.Cfg.Chans)
 		return M{"type": pick(r, []string{"ChannelOpen", "ChannelOpen", "ChannelSend", "ChannelTake"}), "ch": ch, "who": "x"}
-	default:
+	case w < 96:
 		return M{"type": "ExportImport"}
+	default:
+		qs := []string{"Bridge", "Bridges", "NextL1Sequence", "LastFinalizedOutput", "OutputProposal", "OutputProposals", "OutputProposals", "BatchInfos", "TokenPairByL1Denom"}
+		return M{"type": "Query", "q": pick(r, qs), "b": b, "idx": int64(r.Intn(6)), "denom": pick(r, []string{"d1", "d2", "d3"}),
+			"offset": int64(r.Intn(4)), "limit": int64(pick(r, []int{0, 1, 2, 3, 10})), "reverse": r.Intn(2) == 0}
 	}
 }
 
